@@ -468,6 +468,63 @@ async def c07_state_active_truth(w):
     return {"reproduced": bool(bad), "observed": out, "expected": "runs only for the occurrence during which int(pyscript.cnt) is 2"}
 
 
+async def c20_failed_install(w):
+    """install_requirements when Home Assistant's installer fails (RequirementsNotFound): the package must not end up in
+    pyscript's record of the packages it installed."""
+    import os, tempfile, shutil
+    from homeassistant.requirements import RequirementsNotFound
+    import custom_components.pyscript.requirements as R
+    hass = await boot()
+    folder = tempfile.mkdtemp(prefix="c20_")
+    try:
+        with open(os.path.join(folder, "requirements.txt"), "w") as f:
+            f.write("c20-no-such-package==1.2.3\n")
+        updates = []
+        entry = SimpleNamespace(data={"allow_all_imports": True, "_installed_packages": {}})
+        hass.config_entries = SimpleNamespace(async_update_entry=lambda entry=None, data=None: updates.append(data))
+
+        async def failing(hass_, name, reqs):
+            raise RequirementsNotFound(name, list(reqs))
+        saved = R.async_process_requirements
+        R.async_process_requirements = failing
+        err = None
+        try:
+            await R.install_requirements(hass, entry, folder)
+        except Exception as e:  # noqa
+            err = e
+        finally:
+            R.async_process_requirements = saved
+    finally:
+        shutil.rmtree(folder, ignore_errors=True)
+    recs = [u.get("_installed_packages", {}) for u in updates] + [entry.data.get("_installed_packages", {})]
+    recorded = any("c20-no-such-package" in r for r in recs)
+    await shutdown()
+    return {"reproduced": recorded, "observed": {"error": repr(err), "records": recs}, "expected": "the package whose installation failed is in no record"}
+
+
+async def c20_yaml_import_keeps_record(w):
+    """The YAML import flow of the real PyscriptConfigFlow on an existing entry whose data holds pyscript's record of installed
+    packages: the record must survive, for YAML-created and UI-created entries."""
+    from custom_components.pyscript.config_flow import PyscriptConfigFlow
+    out = {}
+    for source in ("import", "user"):
+        record = {"somepkg": "1.0"}
+        entry = SimpleNamespace(source=source, data={"allow_all_imports": True, "hass_is_global": False, "_installed_packages": record})
+        updates = []
+        flow = PyscriptConfigFlow()
+        flow.hass = SimpleNamespace(config_entries=SimpleNamespace(async_entries=lambda d: [entry],
+                                                                  async_update_entry=lambda entry=None, data=None: updates.append(data)))
+        err = None
+        try:
+            await flow.async_step_import({"allow_all_imports": True, "hass_is_global": True})
+        except Exception as e:  # noqa
+            err = e
+        final = updates[-1] if updates else entry.data
+        out[source] = {"record_after": final.get("_installed_packages"), "error": repr(err) if err else None}
+    bad = {k: v for k, v in out.items() if v["record_after"] != {"somepkg": "1.0"}}
+    return {"reproduced": bool(bad), "observed": out, "expected": "record {'somepkg': '1.0'} kept in both cases"}
+
+
 async def c12_outgoing(w):
     """service.call / domain.service() with control-keyword look-alikes; data delivered must equal the given kwargs
     minus control keywords of the recognised type."""
